@@ -489,8 +489,11 @@ class ConsumerGroup(Entity):
             if consumer_name not in self._committed_offsets:
                 self._committed_offsets[consumer_name] = {}
 
+            committed = self._committed_offsets[consumer_name]
             for pid, offset in offsets.items():
-                self._committed_offsets[consumer_name][pid] = offset
+                # committed offsets only move forward (a late or reordered commit must not rewind)
+                if offset > committed.get(pid, 0):
+                    committed[pid] = offset
 
             self._commits += 1
             return None
